@@ -30,6 +30,7 @@ var c18plain = [][2]string{
 	{"/opt", "/o"},
 	{"/srv/x", "/s"},
 	{"/verif", "$V"},
+	{"/vault/customer-x/", "$X/"},
 }
 
 var c18regexps = [][2]string{
@@ -250,7 +251,7 @@ func c18paths(_, _ string) []string {
 	ps := []string{home, home + "/a.go", home + "kit/a.go", home + "/x" + home + "/y.go", home + "/", cwd + "/a.go", cwd, cwd + "x/b.go",
 		"/Volumes/V/p/a.go", "/Volumes/V", "/x/Volumes/V/p/a.go", "/", "", "rel/a.go", "./a.go", "../a.go", "/" + strings.Repeat("d/", 150) + "f.go",
 		"/data/12/x.go", "/data/x/y.go", "/mnt/abc/q.go", "/opt/secret/deep/f.go", "/opt/secretive/f.go", "/opt/secret/deeper/f.go", "/optional/f.go",
-		"/srv/x/opt/secret/f.go", "/opt/secret/opt/secret/f.go"}
+		"/srv/x/opt/secret/f.go", "/opt/secret/opt/secret/f.go", "/vault/customer-x/src/a.go", "/vault/customer-x", "/vault/customer-xy/a.go"}
 	for _, m := range c18plain {
 		ps = append(ps, m[0], m[0]+"/f.go", m[0]+"x/f.go")
 	}
@@ -304,13 +305,34 @@ func c18evalOne(cas c18case, t c18tables) *Violation {
 			out = r[0]
 		})
 	case "record":
-		// a record with caller info whose call site is in this very file
+		// a record with caller info whose call site is in this very file. The same call site logs
+		// once BEFORE the table history is applied (default tables) and once after: what it reported
+		// earlier must not stick.
 		_, file, _, _ := runtime.Caller(0)
 		in = file
 		rec := &recorder{}
-		l := slog.New("p").SetWriter(&plainW{"w", rec}).SetJSONMode(true).SetLevel(slog.AlwaysLevel)
-		slog.AddFlags(slog.Lcaller)
-		pan = catch(func() { l.Info("m") })
+		slog.VerifPermHook = nil
+		resetGlobals()
+		var l slog.Logger
+		emit := func() { l.Info("m") }
+		for round := 0; round < 2; round++ {
+			l = slog.New("p").SetWriter(&plainW{"w", rec}).SetJSONMode(true).SetLevel(slog.AlwaysLevel)
+			if round == 1 {
+				for _, o := range cas.Ops {
+					c18apply(o)
+				}
+				c18setFlags(cas.Privacy, cas.ReFlag)
+				slog.VerifPermHook = func(n int) []int {
+					if len(perm) == n {
+						return perm
+					}
+					return nil
+				}
+			}
+			slog.AddFlags(slog.Lcaller)
+			rec.reset()
+			pan = catch(emit)
+		}
 		if pan == "" {
 			if len(rec.events) != 1 {
 				pan = fmt.Sprintf("%d writes", len(rec.events))
